@@ -1,3 +1,44 @@
-"""C13 scraper for the cpp backend (placeholder, filled in below)."""
+"""C13 scraper for the C++ backend:
+   extern "C" __attribute__((import_module("m")))  __attribute__((import_name("n")))  <prototype>;
+   extern "C" __attribute__((__export_name__("n")))  <definition>   (also __attribute__((__weak__, __export_name__(..))))"""
+import re
+from c13_common import mk, line_of, word_counts, text_files, mark_referenced
+from c13_c import parse_proto, TYPEDEF, TYPEDEF_PTR
+
+GROUP = re.compile(r'^(?P<attrs>(?:[ \t]*(?:extern\s+"C"\s+)?__attribute__\(\([^\n]*\)\)[ \t]*\n)+)\s*(?P<decl>[^;{]*?)\s*(?P<end>[;{])', re.M)
+
+
 def scrape(files):
-    return []
+    srcs = text_files(files, [".cpp", ".h", ".hpp"])
+    typedefs = {}
+    for t in srcs.values():
+        for m in TYPEDEF.finditer(t):
+            typedefs[m.group(2)] = m.group(1)
+        for m in TYPEDEF_PTR.finditer(t):
+            typedefs[m.group(1)] = "*"
+    wc = word_counts(srcs.values())
+    out = []
+    for fn, t in srcs.items():
+        n_attr = len(re.findall(r'(?:import_name|export_name__)\("', t))
+        got = 0
+        for m in GROUP.finditer(t):
+            attrs = m.group("attrs")
+            mi = re.search(r'import_module_*\("([^"]*)"\)', attrs)
+            ni = re.search(r'import_name_*\("([^"]*)"\)', attrs)
+            ne = re.search(r'export_name_*\("([^"]*)"\)', attrs)
+            if not (mi or ni or ne):
+                continue
+            got += 1
+            decl = re.sub(r'^extern\s+"C"\s+', "", m.group("decl").strip())
+            name, sig = parse_proto(decl, typedefs)
+            ln = line_of(t, m.start())
+            if ne:
+                out.append(mk("E", "", ne.group(1), sig, name or "?", fn, ln))
+            elif mi and ni:
+                out.append(mk("I", mi.group(1), ni.group(1), sig, name or "?", fn, ln))
+                out[-1]["_scope"] = 0
+            else:
+                out.append(mk("I", mi.group(1) if mi else "?", ni.group(1) if ni else "?", "?", name or "?", fn, ln))
+        if got != n_attr:
+            out.append(mk("I", "?", "<%d import/export attributes not parsed in %s>" % (n_attr - got, fn), "?", "?", fn, 0))
+    return mark_referenced(out, {0: wc})
